@@ -61,6 +61,33 @@ class LibMixin:
             return self.may_raise(st, z3.And(z3.Not(used), same_ctx), "RuntimeError", k)
         raise Unsupported("ContextVar." + name)
 
+    # ------------------------------------------------------------------ threading.Lock (atomic test-and-set + ghost token)
+    def lock_method(self, st, lock, name, a):
+        self.assumptions.add("threading.Lock.acquire(False) is an atomic test-and-set: it returns True for exactly one caller until released; "
+                             "a successful acquire hands the caller the ghost token of the lock")
+        locked = Val.bv(self.hget(st, "locked_flag", lock.t))
+        if name == "acquire":
+            blocking = a[0] if a else SV("bool", z3.BoolVal(True))
+            out = []
+            for s2, was in self.fork(st, locked, "lock:held"):
+                if was:
+                    if z3.is_false(z3.simplify(blocking.t)):
+                        out.append(Res(s2, SV("bool", z3.BoolVal(False))))
+                    else:
+                        raise Unsupported("blocking acquire of a held lock (would block)")
+                else:
+                    self.hset(s2, "locked_flag", lock.t, Val.BoolV(z3.BoolVal(True)))
+                    s2.held.append(Val.RefV(lock.t))
+                    out.append(Res(s2, SV("bool", z3.BoolVal(True))))
+            return out
+        if name == "release":
+            self.hset(st, "locked_flag", lock.t, Val.BoolV(z3.BoolVal(False)))
+            st.held = [h for h in st.held if not z3.eq(h, Val.RefV(lock.t))]
+            return [Res(st, SV("none"))]
+        if name == "locked":
+            return [Res(st, SV("bool", locked))]
+        raise Unsupported("Lock." + name)
+
     # ------------------------------------------------------------------ external library functions
     def call_ext(self, st, name, pos, kw, star, starkw, node):
         a = [self.concretize(st, x) for x in pos]
@@ -93,7 +120,7 @@ class LibMixin:
             return [Res(st, SV("none"))]
         if name == "threading.Lock":
             r = self.alloc(st, "Lock")
-            self.hset(st, "$locked", r, Val.BoolV(z3.BoolVal(False)))
+            self.hset(st, "locked_flag", r, Val.BoolV(z3.BoolVal(False)))
             return [Res(st, SV("inst", r, h="Lock"))]
         if name == "contextvars.copy_context":
             self.assumptions.add("copy_context() returns a new Context object holding a snapshot of the caller's context; "
